@@ -14,6 +14,8 @@ import (
 	"sort"
 	"strings"
 
+	"syscall"
+
 	"pault.ag/go/debian/control"
 	"pault.ag/go/debian/dependency"
 	"verifsim/rt"
@@ -160,6 +162,24 @@ func runC19(r *rt.Run, tier string) {
 	defer simos.Install(nil)
 	r.Event("workload", "order", fmt.Sprintf("sources=%d edges=%d cyclic=%v arch=%s", n, len(edges), cyclic, buildArch.Text))
 
+	// one of the files may fail while it is read: the first read call hands out
+	// only half of the file (legal), the next one fails with EIO.  Parsing that
+	// file must then fail - a source with half of its build-dependencies must
+	// not enter the ordering as if it were complete.
+	victim := -1
+	small := true
+	for _, sc := range srcs {
+		if len(sc.Doc.render()) >= 4000 {
+			small = false
+		}
+	}
+	if small && t.Bool(1, 5, "config.faulty") {
+		victim = t.Draw(n, "fault.victim")
+		fs.Subject = "parse"
+		// per file: open, read, read (EOF), close
+		fs.Plan = map[int]simos.Fault{4*victim + 2: {Kind: "short"}, 4*victim + 3: {Kind: "err", Errno: syscall.EIO}}
+		r.Stats["config.faulty"]++
+	}
 	var dscs []control.DSC
 	var perr error
 	task := r.Solo("parse", func() {
@@ -173,6 +193,21 @@ func runC19(r *rt.Run, tier string) {
 		}
 	})
 	if taskTrouble(r, "C19", "parse", task) {
+		return
+	}
+	if victim >= 0 {
+		fired := false
+		for _, op := range fs.History {
+			if op.Fault == "err" {
+				fired = true
+			}
+		}
+		if fired && perr == nil {
+			r.Violate("C19/read-error-swallowed", "ParseDscFile", "reading %s.dsc failed with EIO after half of the file, yet all %d files were parsed without error (a source with part of its fields would enter the ordering)", srcs[arrival[victim]].Name, n)
+		}
+		if fired {
+			r.Probe("dsc-read-failed-half-way")
+		}
 		return
 	}
 	if perr != nil {
@@ -383,5 +418,5 @@ func init() {
 		},
 		Assumptions: []string{"claimed weakly: the function under test is pure; simulation owns only the arrival order, the file reads and the map-order seam. The deciding oracle is a graph model over generated inputs", "architecture restrictions use concrete architectures only (wildcard matching belongs to the not-applicable property C06)", "every binary is built by exactly one of the given sources"},
 	})
-	propProbes["C19"] = []string{"ordered-by-concurrent-callers", "binary-named-like-another-source", "dependency-named-like-a-source-nobody-builds", "ordered-for-two-architectures", "cyclic-graph", "acyclic-graph", "edge-through-alternative", "multi-binary-source-has-dependents"}
+	propProbes["C19"] = []string{"dsc-read-failed-half-way", "ordered-by-concurrent-callers", "binary-named-like-another-source", "dependency-named-like-a-source-nobody-builds", "ordered-for-two-architectures", "cyclic-graph", "acyclic-graph", "edge-through-alternative", "multi-binary-source-has-dependents"}
 }
